@@ -767,6 +767,211 @@ func scheduleScenarios(c *hx.Ctx) []*scn {
 		out = append(out, s)
 	}
 
+	out = append(out, queueBoundaryScenarios(c)...)
+	out = append(out, busyCallbackScenarios(c)...)
+	return out
+}
+
+// Q: boundary values of the queue configuration.  QueueTimeout 0 / 1 ns / a few ms, capacity 1..3, more commands
+// than the queue holds while nobody takes them (the service is offline, was stopped, or was never started), then
+// Stop / Start / further commands.  Whatever the values are: every API call returns (a caller waits about
+// QueueTimeout for room, not longer), never more commands are accepted than fit, a caller that gives up has waited
+// QueueTimeout, Stop returns and cancels what it is asked to cancel, a later Start works, and what was accepted
+// while offline is carried out once online, in the order issued.  (Direct clauses only: with a timeout of zero the
+// select between "room" and "timeout" may go either way, which the monitor does not model.)
+func queueBoundaryScenarios(c *hx.Ctx) []*scn {
+	var out []*scn
+	mix := []body{pub("q", "c0", 1), sub("q/1", 1), unsub("q/2"), pub("q", "c3", 0), pub("q", "c4", 2), sub("q/5", 0, "q/6", 2)}
+	for _, qt := range []time.Duration{0, time.Nanosecond, 3 * time.Millisecond, 40 * time.Millisecond} {
+		for _, qcap := range []int{1, 2, 3} {
+			for _, state := range []string{"offline", "stopped", "never-started"} {
+				qt, qcap, state := qt, qcap, state
+				s := mk(fmt.Sprintf("q-timeout%v-cap%d-%s", qt, qcap, state), func(s *scn) {
+					s.direct("queue", "")
+					s.direct("fifo", "")
+					switch state {
+					case "offline":
+						s.start()
+						s.waitCount("connfail", 1)
+					case "stopped":
+						s.start()
+						s.waitCount("connfail", 1)
+						s.via(func() { s.stop(false) })
+					}
+					n := qcap + 2
+					for i := 0; i < n; i++ {
+						b := mix[(i+qcap)%len(mix)]
+						s.via(func() { s.cmd(b) })
+						if s.isWedged() {
+							break
+						}
+					}
+					if s.isWedged() {
+						// an API call sits in the queueing step for good; the property still wants Stop to return
+						done := make(chan bool, 1)
+						go func() { done <- s.svc.Stop(true) }()
+						select {
+						case <-done:
+						case <-time.After(4 * time.Second):
+							s.direct("stop", fmt.Sprintf("Stop(true)-did-not-return-within-4s-while-a-command-call-waits-for-room-in-the-full-queue(capacity-%d,QueueTimeout-%v)", qcap, qt))
+						}
+						return
+					}
+					// who was accepted, who gave up
+					s.mu.Lock()
+					var accepted []int
+					bad := ""
+					for i := 0; i < n; i++ {
+						if !s.canRet[i] {
+							accepted = append(accepted, i)
+						} else if s.callDur[i] < qt {
+							bad = fmt.Sprintf("call-%d-gave-up-after-%v-before-QueueTimeout(%v)", i, s.callDur[i], qt)
+						}
+					}
+					s.mu.Unlock()
+					if len(accepted) > qcap {
+						bad = fmt.Sprintf("%d-commands-accepted-by-a-queue-of-capacity-%d-that-nobody-reads", len(accepted), qcap)
+					}
+					if qt >= 20*time.Millisecond && len(accepted) == 0 {
+						bad = "no-command-accepted-although-the-queue-was-empty"
+					}
+					if bad != "" {
+						s.direct("queue", bad)
+					}
+					if state == "offline" {
+						// Stop(true): returns, and every future is cancelled (checked inside stop)
+						var ok bool
+						s.via(func() { ok = s.stop(true) })
+						if !ok && !s.isWedged() {
+							s.direct("stop", "Stop(true)-on-a-running-offline-service-returned-false")
+						}
+						accepted = nil
+					}
+					s.bump("allow")
+					var started bool
+					s.via(func() { started = s.start() })
+					if !started {
+						if !s.isWedged() {
+							s.direct("stop", "Start-after-Stop-returned-false:no-restart")
+						}
+						return
+					}
+					s.waitCount("online", 1)
+					// what was accepted while stopped / not started is carried out now, in the order issued
+					for _, i := range accepted {
+						s.waitFut(i)
+					}
+					s.waitCount("peerreq", len(accepted)) // the peer records on its own goroutine
+					s.mu.Lock()
+					var want, got []string
+					for _, i := range accepted {
+						want = append(want, s.bodies[i].text())
+						if s.futSt[i] != "completed" {
+							bad = fmt.Sprintf("command-%d-accepted-while-offline-ended-%s", i, s.futSt[i])
+						}
+					}
+					for _, l := range s.peers {
+						if f := strings.SplitN(l, " ", 3); len(f) == 3 {
+							got = append(got, f[2])
+						}
+					}
+					s.mu.Unlock()
+					if bad == "" && strings.Join(want, " ") != strings.Join(got, " ") {
+						bad = "issued-and-accepted:[" + strings.Join(want, "_") + "]-carried-out:[" + strings.Join(got, "_") + "]"
+					}
+					if bad != "" {
+						s.direct("fifo", bad)
+					}
+					// further commands: the liveness probe that follows every script
+				})
+				s.noMon = true
+				s.qcap = qcap
+				s.qtmo = qt
+				s.apiBound = 4 * time.Second
+				s.clean = qcap%2 == 1
+				s.planGen = func(int) connPlan { return connPlan{refuse: s.count("allow") == 0} }
+				out = append(out, s)
+			}
+		}
+	}
+	return out
+}
+
+// K: the application's MessageCallback is still busy with an inbound message (QoS 0, 1, 2) when the connection
+// breaks; the dispatcher notices first, through a command that cannot be sent (the client's processor is busy
+// inside the callback).  The service reconnects - whether before or after the callback has returned is its
+// business - and two more commands A and B are issued, A before the callback returns, B after the old client has
+// come to rest; both reach the broker on the new connection and are acknowledged there.  Their futures must
+// complete ("futures ... complete when the acknowledgement arrives"), and once the next connection has been
+// dialled nothing of the previous client may send any more (single_client: the service has one client at a time).
+func busyCallbackScenarios(c *hx.Ctx) []*scn {
+	var out []*scn
+	xs := []body{pub("k", "x-unsendable", 0), pub("k", "x-unsendable", 1), sub("k/x", 1), unsub("k/x")}
+	abs := [][2]body{{pub("k", "a", 1), pub("k", "b", 1)}, {pub("k", "a", 1), sub("k/b", 1)}, {pub("k", "a", 2), pub("k", "b", 1)}, {sub("k/a", 0), pub("k", "b", 2)}}
+	for inq := 0; inq <= 2; inq++ {
+		for _, clean := range []bool{true, false} {
+			for xi, x := range xs {
+				if !c.Thorough() && !clean && (xi+inq)%2 == 1 {
+					continue // a clean session is where a surviving old client does its damage: all of those, half of the others
+				}
+				inq, clean, x, ab := inq, clean, x, abs[(xi+inq)%len(abs)]
+				s := mk(fmt.Sprintf("k-busy-callback-q%d-clean%v-x%d", inq, clean, xi), func(s *scn) {
+					s.direct("futures_survive", "")
+					extra := 0
+					if x.kind == 's' {
+						extra = 1 // the failed SUBSCRIBE counts for the set: connection 2 begins with a resubscribe request
+					}
+					s.start()
+					s.waitCount("online", 1)
+					s.waitCount("msgcb", 1)
+					s.release("broken")
+					var xn, a, b int
+					s.via(func() { xn = s.cmd(x) })
+					s.waitFut(xn)
+					s.via(func() { a = s.cmd(ab[0]) })
+					// bounded, and it is no failure if nothing happens: a service that does not wait for the old client
+					// comes back online and sends A now, one that waits does so after the callback has returned
+					s.waitCountD("send", 2+extra, 1200*time.Millisecond, false)
+					s.release("cb")
+					s.waitCount("msgcbret", 1)
+					if inq > 0 {
+						s.waitCount("kill", 1) // the old client could not acknowledge and has died
+					}
+					s.waitCount("online", 2)
+					s.waitCount("send", 2+extra)
+					s.via(func() { b = s.cmd(ab[1]) })
+					s.waitCount("send", 3+extra)
+					s.release("acks")
+					s.waitFut(a)
+					s.waitFut(b)
+					s.mu.Lock()
+					bad := ""
+					for _, n := range []int{a, b} {
+						if s.futSt[n] != "completed" {
+							bad += fmt.Sprintf("future-%d(%s)-%s-although-its-request-was-sent-and-acknowledged-on-connection-2;", n, strings.SplitN(s.bodies[n].text(), ":", 2)[0], s.futSt[n])
+						}
+					}
+					s.mu.Unlock()
+					s.direct("futures_survive", bad)
+				})
+				s.noMon = true
+				s.clean = clean
+				s.msgGate = "cb"
+				in := packet.NewPublish()
+				in.Message = packet.Message{Topic: "k/in", Payload: []byte("held"), QOS: packet.QOS(inq)}
+				if inq > 0 {
+					in.ID = 7
+				}
+				extra := 0
+				if x.kind == 's' {
+					extra = 1
+				}
+				s.plans = []connPlan{{inbound: []packet.Generic{in}, failGate: "broken"},
+					{sp: !clean, gateAck: map[int]string{1 + extra: "acks", 2 + extra: "acks"}}}
+				out = append(out, s)
+			}
+		}
+	}
 	return out
 }
 
